@@ -161,7 +161,8 @@
     #[kani::proof]
     #[kani::unwind(3)]
     #[kani::stub(std::fmt::format, format_unreachable)]
-    // without the stub: > 15 GB and > 25 min (deserialize_option + visitor machinery + error formatting)
+    // without the stub: > 15 GB and > 25 min (deserialize_option + visitor machinery + error formatting); with a SYMBOLIC
+    // discriminant it does not finish either - split by discriminant (roundtrip_option_none / roundtrip_option_some_*) it takes 6 s
     fn roundtrip_option_u64() {
         let x: Option<u64> = kani::any();
         let v = Value::from(Serde(x));
@@ -172,6 +173,68 @@
         kani::cover!(x.is_some(), "some");
         std::mem::forget(v);
     }
+//# ob name=roundtrip_option_none stubs=format_unreachable fn=value::serialize::ValueSerializer+value::deserialize kind=complete stmt="Option::<u64>::None serialises to none and deserialises back to None (options of non-optional payloads: the None half)"
+    #[kani::proof]
+    #[kani::unwind(3)]
+    #[kani::stub(std::fmt::format, format_unreachable)]
+    fn roundtrip_option_none() {
+        let x: Option<u64> = None;
+        let v = Value::from(Serde(x));
+        assert!(matches!(v.0, ValueRepr::None));
+        let back = <Option<u64> as serde::Deserialize>::deserialize(v.clone());
+        match back { Ok(y) => { assert!(y.is_none()); } Err(e) => { std::mem::forget(e); assert!(false); } }
+        kani::cover!(true, "reached");
+        std::mem::forget(v);
+    }
+//# ob name=roundtrip_option_some_u64 stubs=format_unreachable fn=value::serialize::ValueSerializer+value::deserialize kind=complete stmt="Some(x) serialises to x and deserialises back to Some(x) for every u64 (the Some half; the discriminant is concrete per obligation, the payload symbolic)"
+    #[kani::proof]
+    #[kani::unwind(3)]
+    #[kani::stub(std::fmt::format, format_unreachable)]
+    fn roundtrip_option_some_u64() {
+        let p: u64 = kani::any();
+        let x: Option<u64> = Some(p);
+        let v = Value::from(Serde(x));
+        match &v.0 { ValueRepr::U64(b) => { assert!(*b == p); } _ => { assert!(false); } }
+        let back = <Option<u64> as serde::Deserialize>::deserialize(v.clone());
+        match back { Ok(y) => { assert!(y == Some(p)); } Err(e) => { std::mem::forget(e); assert!(false); } }
+        kani::cover!(p > 1 << 40, "large payload");
+        std::mem::forget(v);
+    }
+    macro_rules! roundtrip_option_some {
+        ($name:ident, $t:ty, $pat:pat => $chk:expr) => {
+            #[kani::proof]
+            #[kani::unwind(3)]
+            #[kani::stub(std::fmt::format, format_unreachable)]
+            fn $name() {
+                let p: $t = kani::any();
+                let x: Option<$t> = Some(p);
+                let v = Value::from(Serde(x));
+                match &v.0 { $pat => { assert!($chk(p)); } _ => { assert!(false); } }
+                let back = <Option<$t> as serde::Deserialize>::deserialize(v.clone());
+                match back { Ok(Some(y)) => { assert!(same_bits(y, p)); } Ok(None) => { assert!(false); } Err(e) => { std::mem::forget(e); assert!(false); } }
+                kani::cover!(true, "reached");
+                std::mem::forget(v);
+            }
+        };
+    }
+    trait SameBits { fn bits(self) -> u64; }
+    impl SameBits for i64 { fn bits(self) -> u64 { self as u64 } }
+    impl SameBits for bool { fn bits(self) -> u64 { self as u64 } }
+    impl SameBits for f64 { fn bits(self) -> u64 { self.to_bits() } }
+    impl SameBits for u8 { fn bits(self) -> u64 { self as u64 } }
+    impl SameBits for i32 { fn bits(self) -> u64 { self as i64 as u64 } }
+    fn same_bits<T: SameBits>(a: T, b: T) -> bool { a.bits() == b.bits() }
+//# ob name=roundtrip_option_some_i64 stubs=format_unreachable fn=value::serialize::ValueSerializer+value::deserialize kind=complete stmt="Some(x) round-trips for every i64"
+//# ob name=roundtrip_option_some_bool role=disabled stubs=format_unreachable fn=value::serialize::ValueSerializer+value::deserialize kind=complete stmt="Some(b) round-trips for both booleans"
+    // disabled: solver timeout (600 s) - unlike the integer and float payloads; covered by serde_box_native
+//# ob name=roundtrip_option_some_f64 stubs=format_unreachable fn=value::serialize::ValueSerializer+value::deserialize kind=complete stmt="Some(f) round-trips bit for bit for every f64"
+//# ob name=roundtrip_option_some_u8 stubs=format_unreachable fn=value::serialize::ValueSerializer+value::deserialize kind=complete stmt="Some(x) round-trips for every u8 (a narrow width: the conversion back cannot fail)"
+//# ob name=roundtrip_option_some_i32 stubs=format_unreachable fn=value::serialize::ValueSerializer+value::deserialize kind=complete stmt="Some(x) round-trips for every i32"
+    roundtrip_option_some!(roundtrip_option_some_i64, i64, ValueRepr::I64(b) => |p: i64| *b == p);
+    roundtrip_option_some!(roundtrip_option_some_bool, bool, ValueRepr::Bool(b) => |p: bool| *b == p);
+    roundtrip_option_some!(roundtrip_option_some_f64, f64, ValueRepr::F64(b) => |p: f64| b.to_bits() == p.to_bits());
+    roundtrip_option_some!(roundtrip_option_some_u8, u8, ValueRepr::U64(b) => |p: u8| *b == p as u64);
+    roundtrip_option_some!(roundtrip_option_some_i32, i32, ValueRepr::I64(b) => |p: i32| *b == p as i64);
 //# ob name=roundtrip_unit fn=value::serialize::ValueSerializer+value::deserialize kind=complete stmt="the unit value serialises to none and deserialises back"
     #[kani::proof]
     #[kani::unwind(3)]
